@@ -14,7 +14,7 @@
    for every ontology loaded from JAX text files with a closed hp.obo (C07_jax_roundtrip_complete) and
    for every sub-ontology of an ontology with exact caches (C07_sub_ontology_roundtrip_complete). *)
 From Coq Require Import Permutation.
-From HpoV Require Import Gen.Consts Model.Base Model.Group Model.Onto Model.Binary Proofs.GroupP Proofs.BinaryP Proofs.CodecP Proofs.SectionP Proofs.RoundTripP Proofs.ClosureP Proofs.LinkP Proofs.AcyclicP Proofs.AnnotP Proofs.BuilderAnnotP Proofs.ReloadP Proofs.RoundTripAllP Proofs.RoundTripSrcP Proofs.AllPathsP Proofs.DistP Proofs.JaxP Model.Script Model.Text Model.SubOnt.
+From HpoV Require Import Gen.Consts Model.Base Model.Group Model.Onto Model.Binary Proofs.GroupP Proofs.BinaryP Proofs.CodecP Proofs.SectionP Proofs.RoundTripP Proofs.ClosureP Proofs.LinkP Proofs.AcyclicP Proofs.AnnotP Proofs.BuilderAnnotP Proofs.ReloadP Proofs.RoundTripAllP Proofs.RoundTripSrcP Proofs.AllPathsP Proofs.TotalReloadP Proofs.DistP Proofs.JaxP Model.Script Model.Text Model.SubOnt.
 
 Theorem C07_u32_roundtrip : forall n rest, n < 4294967296 -> u32_at (to_be32 n ++ rest) 0 = Ok n.
 Proof. exact u32_at_to_be32. Qed.
@@ -192,6 +192,24 @@ Theorem C07_every_constructed_ontology_roundtrips : forall icf o order o'', cons
   (b_build_with_defaults o = Ok o -> o_cat o'' = o_cat o /\ o_mod o'' = o_mod o).
 Proof. exact constructed_roundtrip. Qed.
 
+(* "SERIALISATION NEVER EMITS BYTES THAT THE LOADER REJECTS OR PANICS ON": for every well-formed source
+   that contains the two standard root terms and that the format can carry, from_bytes (as_bytes o)
+   RETURNS an ontology (every fuelled recursion has enough fuel, no lookup fails) ... *)
+Theorem C07_writer_output_is_accepted : forall icf order o,
+  file_ok order o -> src_ok o -> acyclic (o_arena o) -> ann_ok o -> ic_ok icf o -> (forall k, NoDup (map a_id (o_records k o))) ->
+  (forall k r d, In r (o_records k o) -> In d (a_hpos r) -> In d (ar_keys (o_arena o))) ->
+  (forall l, Permutation (order l) l) ->
+  In ROOT_ID (ar_keys (o_arena o)) -> In PHENOTYPE_ID (ar_keys (o_arena o)) ->
+  exists o'', decode icf (encode_with order o) = Ok o''.
+Proof. exact reload_accepted. Qed.
+
+(* ... in particular for every ontology produced by the public constructors *)
+Theorem C07_constructed_output_is_accepted : forall icf o order, constructed icf o -> file_ok order o ->
+  (forall l, Permutation (order l) l) ->
+  In ROOT_ID (ar_keys (o_arena o)) -> In PHENOTYPE_ID (ar_keys (o_arena o)) ->
+  exists o'', decode icf (encode_with order o) = Ok o''.
+Proof. exact constructed_reload_accepted. Qed.
+
 Print Assumptions C07_u32_roundtrip.
 Print Assumptions C07_name_cut_bounds.
 Print Assumptions C07_name_cut_identity.
@@ -216,3 +234,5 @@ Print Assumptions C07_roundtrip_any_source.
 Print Assumptions C07_jax_roundtrip_complete.
 Print Assumptions C07_sub_ontology_roundtrip_complete.
 Print Assumptions C07_every_constructed_ontology_roundtrips.
+Print Assumptions C07_writer_output_is_accepted.
+Print Assumptions C07_constructed_output_is_accepted.
